@@ -468,7 +468,7 @@ impl Prop for MatchProp {
         format!("Every multiset of union/insert operations of the stated depth over the stated alphabets, in every distinct ordering, is executed; on the resulting e-graph every pattern of a {}-pattern pool (repeated variables, repeated/free/bound slots, nested nodes) is matched with ematch_all and every multi-pattern of a {}-pattern pool with multi_ematch; on the small-alphabet segments (MICRO/SAME/SHARE/CORE depth 2, MICRO/SAME depth 3, BIND depth 1; thorough more) additionally EVERY 2-equation multi-pattern in canonical form over the templates (b ?x ?y) (u ?x) (lam $s ?x) (var $s) (h $s) (f $s $t) with at most 2 slots (632 equation sequences; thorough on MICRO^2/SAME^2 also all 35 584 3-equation sequences over b/u/var/f). For every returned substitution: all pattern variables bound to well-formed invocations; a read-only instantiation (EGraph::lookup node by node) finds the term; for multi-patterns each equation ?v == node holds (lookup of the node is eq to ?v's binding); the observable state (progress, nodes, per-class profile, canonical form of every handle) is identical before and after. Non-trivial = number of substitutions checked.", PATTERNS.len(), MULTI.len())
     }
     fn assumptions(&self) -> Vec<String> {
-        vec!["histories that panic are counted as aborted (owned by C08)".into()]
+        vec!["histories that panic are reported as a no-answer failure (the same defect is also reported by C08 where its exploration reaches it)".into()]
     }
     fn describe(&self, tier: Tier, _cfg: &str, seg: usize, idx: u64) -> Value {
         let segs = self.segs(tier);
